@@ -32,7 +32,7 @@ FLOOR = 16 * 2.2250738585072014e-308
 
 def gen_pair(rng):
     r = rng.random()
-    qA = rng.choice([10 ** rng.uniform(-6, 0), rng.uniform(0.01, 30), rng.uniform(30, 600)])
+    qA = rng.choice([10 ** rng.uniform(-6, 0), 10 ** rng.uniform(-14, -6), rng.uniform(0.01, 30), rng.uniform(30, 600)])
     smax = 37.0
     if r < 0.12:
         q = 0.0
